@@ -368,7 +368,8 @@ with overflow checks. Outcome must be ok/err; `load` outcomes are also compared 
         for (vi, ver) in vers.iter().enumerate() {
             let Some(mut r) = c.case("encdict-base", vi as u64) else { continue };
             let opts = c05::GenOpts { stream_dict_strings: true, nested_streams: false, meta_dicts: false, bad_length: false };
-            let mut doc = c05::gen_doc(&mut r, &opts);
+            // (documents numbered around 2^24 are C05's business: here every variant is saved and loaded, which is linear in max_id)
+            let mut doc = loop { let d = c05::gen_doc(&mut r, &opts); if d.max_id < 100_000 { break d; } };
             let mut cfg = c05::gen_config(&mut r, Some(ver.clone()));
             cfg.user = String::new();
             let Ok(state) = cfg.make_state(&doc) else { c.count("encdict.mkstate_failed"); continue };
